@@ -10,7 +10,8 @@ THEOREMS = ["C15_len_u8", "C15_len_be16", "C15_len_be32", "C15_len_be64", "C15_i
             "C15_certificates", "C15_dhcp_option", "C15_dhcp_options_sequence", "C15_dns_rr",
             # every content size: exact output, "fits" is necessary as well as sufficient, explicit nesting (Props/C15b.v)
             "C15b_len_u8_exact", "C15b_len_be16_exact", "C15b_len_u8_iff", "C15b_len_be16_iff", "C15b_len_nested",
-            "C15b_int_exact", "C15b_int_iff", "C15b_tls_record_iff", "C15b_tls_extension_iff", "C15b_dhcp_option_iff"]
+            "C15b_int_exact", "C15b_int_iff", "C15b_tls_record_iff", "C15b_tls_extension_iff", "C15b_dhcp_option_iff",
+            "C15b_len_be32_exact", "C15b_len_be32_iff"]
 PROPS = ["C15", "C15b"]
 VO = ["theories/Props/C15.vo", "theories/Props/C15b.vo"]
 RULE = ("one structure per program, sent as the payload of ipv4::udp::unicast (structures over 60000 bytes through "
